@@ -23,7 +23,7 @@ def _select(tier):
             return name in ("mixed_y_q", "mixed_q_m", "mixed_m_d", "mixed_d_i", "mixed_i_y", "mixed_h_q", "mixed_q_h", "mixed_d_m")
         if name.startswith("daily_"):
             return True
-        if name.startswith(("span_offset_", "span_mutate_", "span_resolve_", "span_reverse_", "span_ops_")):
+        if name.startswith(("span_offset_", "span_mutate_", "span_resolve_", "span_reverse_", "span_ops_", "periods_from_until_")):
             return name.endswith(("_q", "_i"))
         if name.startswith("hash_"):
             return name.endswith(("_q", "_d"))
